@@ -245,4 +245,37 @@ theorem decode_of_encodesTo (a : DDSketch MapEnv (GPS grow))
     rw [← hid]
     exact congrArg MapEnv.id hs.map
 
+/-! ### 4. one encoded store block on a `Sim` pair (towards `GoodRun` for encoded bytes) -/
+
+/-- **one encoded store block**: when the side conditions `DecodeOK` hold for the bytes `encPayload p ++ R` and the
+    model adds the bins of `p` to the partner store, the regenerated store decoder returns nil, consumes exactly the
+    payload (the remaining bytes are `R`) and the receivers are related again -/
+theorem gps_decode_encPayload {x : GPS grow} {st : Store} (h : Sim x st) (p : BinsPayload) (hp : p.WF)
+    (R : Bytes) (hR : ∀ y ∈ R, y < 256) (sub : SubFlag)
+    (hsub : Wire.flagSub sub.byte.toNat = Wire.payloadSub p)
+    (hok : DecodeOK x (bn (Wire.encPayload p ++ R)) sub)
+    (st' : Store) (hadd : Sketch.addBins st (Wire.payloadBins p) = some st') :
+    ∃ t : GPS grow, (StoreI.DecodeAndMergeWith x (bn (Wire.encPayload p ++ R)) sub :
+        GPS grow × List (BitVec 8) × GoErr) = (t, bn R, GoErr.nil) ∧ Sim t st' := by
+  have hbytes : nb (bn (Wire.encPayload p ++ R)) = Wire.encPayload p ++ R :=
+    nb_bn _ (fun y hy => (List.mem_append.1 hy).elim (Wire.encPayload_bytes p y) (hR y))
+  have hM : (StoreI.DecodeAndMergeWith st (bn (Wire.encPayload p ++ R)) sub : Store × List (BitVec 8) × GoErr) =
+      (st', bn R, GoErr.nil) := by
+    rw [GenSketch.store_decode]
+    unfold GenSketch.storeDecode
+    show (match Sketch.decodeStore st (Wire.flagSub sub.byte.toNat) (nb (bn (Wire.encPayload p ++ R))) with
+      | some (.ok (st', rest)) => (st', bn rest, GoErr.nil)
+      | some (.error e) => (st, bn (Wire.encPayload p ++ R), GenSketch.decErr e)
+      | none => (st, bn (Wire.encPayload p ++ R), GoErr.nil)) = _
+    rw [hsub, hbytes, Sketch.decodeStore_encPayload st p hp R, hadd]
+  obtain ⟨e1, e2⟩ := sim_decode h _ sub hok
+  rw [hM] at e1 e2
+  obtain ⟨e3, e4⟩ := e2 rfl
+  generalize (StoreI.DecodeAndMergeWith x (bn (Wire.encPayload p ++ R)) sub :
+    GPS grow × List (BitVec 8) × GoErr) = ra at e1 e3 e4
+  obtain ⟨t, b2, e⟩ := ra
+  simp only at e1 e3 e4
+  subst e1 e3
+  exact ⟨t, rfl, e4⟩
+
 end DDS.GenPagSketch
